@@ -24,6 +24,27 @@ func jobsFor(prop, tier string) []Job {
 	thorough := tier == "thorough"
 	var js []Job
 	switch prop {
+	case "C09":
+		mk := func(name string, p map[string]int) Job {
+			return Job{Name: name, Pkg: "", Fn: "VH_C09", Inits: true, FilterSummary: true, Samples: 4, Params: p,
+				Bounds:  map[string]any{"rounds_of_flush_and_compact": p["R"], "tables_per_round": p["T"], "entries_per_table": p["E"], "l0TargetNum": p["L0T"], "ratio": p["RATIO"], "watermark": "symbolic 0..MAXTS set through the real readMark", "user_key_bytes": "1 (first KL2 entries: 2), all byte values", "timestamps": "0..MAXTS", "tombstones": "symbolic", "block_size": "symbolic 0..64", "query": "symbolic key, read timestamp >= watermark", "params": p},
+				Assumes: []string{aFilter, aS2, aFS, "entries of one flushed table are sorted and distinct; a (key, version) pair occurs once over all tables"},
+				Outside: []string{"more tables/entries/rounds than the listed configurations (3x3 is out of reach)", "user keys longer than 2 bytes"}}
+		}
+		js = []Job{
+			mk("c09-1r-2x2", params("R", 1, "T", 2, "E", 2, "L0T", 1, "RATIO", 2)),
+			mk("c09-2r-2x1-l1merge", params("R", 2, "T", 2, "E", 1, "L0T", 1, "RATIO", 2)),
+			mk("c09-2r-2x1-cascade-recover", params("R", 2, "T", 2, "E", 1, "L0T", 1, "RATIO", 1, "RECOVER", 1, "WM", 0)),
+		}
+		if thorough {
+			js = append(js,
+				mk("c09-1r-3x2", params("R", 1, "T", 3, "E", 2, "L0T", 2, "RATIO", 2)),
+				mk("c09-1r-2x3", params("R", 1, "T", 2, "E", 3, "L0T", 1, "RATIO", 2)),
+				mk("c09-1r-2x2-k2", params("R", 1, "T", 2, "E", 2, "L0T", 1, "RATIO", 2, "KL2", 2, "QKL", 2)),
+				mk("c09-3r-2x1-cascade", params("R", 3, "T", 2, "E", 1, "L0T", 1, "RATIO", 1)),
+				mk("c09-2r-2x2-l1merge", params("R", 2, "T", 2, "E", 2, "L0T", 1, "RATIO", 2, "WM", 0)),
+			)
+		}
 	case "C10":
 		mk := func(name string, p map[string]int) Job {
 			return Job{Name: name, Pkg: "", Fn: "VH_C10", Inits: true, FilterSummary: true, Samples: 4, Params: p,
@@ -47,6 +68,11 @@ func jobsFor(prop, tier string) []Job {
 		}
 	case "DBG":
 		js = []Job{{Name: "dbg", Pkg: "table", Fn: "VH_Dbg", Inits: true, Samples: 1}}
+	case "X09":
+		js = []Job{
+			{Name: "x-nosum", Pkg: "", Fn: "VH_C09", Inits: true, FilterSummary: true, NoSummaries: true, Params: params("R", 1, "T", 2, "E", 2, "L0T", 1, "RATIO", 2), Cap: 600 * time.Second},
+			{Name: "x-sum", Pkg: "", Fn: "VH_C09", Inits: true, FilterSummary: true, Params: params("R", 1, "T", 2, "E", 2, "L0T", 1, "RATIO", 2), Cap: 600 * time.Second},
+		}
 	case "C11":
 		mk := func(name, pkg, fn string, p map[string]int) Job {
 			return Job{Name: name, Pkg: pkg, Fn: fn, Inits: true, Samples: 3, Params: p,
